@@ -25,7 +25,9 @@ PKG = e2e.PKG
 REL_LOG = "../../../../../log"
 
 
-def sample(behs, n, seed, nontrivial):
+def sample(behs, n, seed, nontrivial, cls):
+    """Canonical order, duplicates removed; when more than n remain: a seeded sample of the non-trivial ones, taken
+    round-robin over the classes cls(b) so that every shape of history is exercised within the budget."""
     behs = sorted(behs, key=lambda b: json.dumps(b, sort_keys=True))
     uniq, last = [], None
     for b in behs:
@@ -35,8 +37,20 @@ def sample(behs, n, seed, nontrivial):
         last = k
     total = len(uniq)
     if n is not None and len(uniq) > n:
-        nt = [b for b in uniq if nontrivial(b)]
-        uniq = random.Random(seed).sample(nt, min(n, len(nt)))
+        rng = random.Random(seed)
+        groups = {}
+        for b in uniq:
+            if nontrivial(b):
+                groups.setdefault(cls(b), []).append(b)
+        keys = sorted(groups)
+        rng.shuffle(keys)
+        for k in keys:
+            rng.shuffle(groups[k])
+        uniq = []
+        while len(uniq) < n and any(groups[k] for k in keys):
+            for k in keys:
+                if groups[k] and len(uniq) < n:
+                    uniq.append(groups[k].pop())
     return uniq, total
 
 
@@ -57,6 +71,8 @@ def new_repo(ctx, tag, idx, cache=False, config_extra=""):
 
 # ===================================================================================================== C10
 ENV_VARS = ["A", "B", "TMP_DIR"]
+WELL_KNOWN = ["LANG", "LC_ALL", "USER", "LOGNAME", "SHELL", "TERM", "TZ", "EDITOR", "GOPATH", "GOROOT", "PYTHONPATH", "CC", "CFLAGS",
+              "JAVA_HOME", "SSH_AUTH_SOCK", "DISPLAY", "OLDPWD", "MAIL", "HOSTNAME", "TMP", "TEMP", "PKG_CONFIG_PATH", "SHLVL_X"]
 
 
 def env_token(v, val):
@@ -117,7 +133,10 @@ def c10_replay(ctx, idx, beh):
         caller = render_env(env)
         # variables nobody lists: fresh names and values at every invocation
         plants = {"VERIF_LEAK_%d" % rng.randrange(1000): "leak%08x" % rng.randrange(1 << 32) for _ in range(2)}
-        plants["SHLVL_VERIF"] = "leak%08x" % rng.randrange(1 << 32)
+        # ... and well-known names a build tool might be tempted to forward (only their values are looked for: plz
+        # legitimately sets some of these names itself, e.g. LANG)
+        for name in rng.sample(WELL_KNOWN, 6):
+            plants[name] = "leak%08x" % rng.randrange(1 << 32)
         planted.update(plants)
         rc, outp, started, _ = repo.plz(["build"] + [e2e.label(t) for t in targets], env=dict(caller, **plants), threads=2)
         trace.append("build under %s -> rc=%d ran=%s" % (json.dumps(caller, sort_keys=True), rc, sorted(started)))
@@ -158,7 +177,7 @@ def c10_replay(ctx, idx, beh):
                 elif dump.get(v) != env_token(v, want):
                     viols.append(("C10 listed-variable-wrong-value", dict(detail, target=t, var=v, value=dump.get(v), want=env_token(v, want))))
             for name, tok in planted.items():
-                if name in dump or tok in text:
+                if (name.startswith("VERIF_LEAK_") and name in dump) or tok in text:
                     viols.append(("C10 unlisted-caller-variable-visible-to-action", dict(detail, target=t, var=name)))
             # no value of an unlisted variable anywhere in the action's environment, under any name
             for v in ENV_VARS:
@@ -182,6 +201,11 @@ def c10_replay(ctx, idx, beh):
     shutil.rmtree(base, ignore_errors=True)
     shutil.rmtree(repo.home, ignore_errors=True)
     return viols, dict(builds=builds, drift=drift, trace=trace)
+
+
+def c10_class(beh):
+    """Configuration x which variables change between builds."""
+    return json.dumps([beh["cfg"], sorted({s["v"] for s in beh["steps"] if s["act"] == "SetEnv"}), len(beh["steps"])])
 
 
 def c10_nontrivial(beh):
@@ -225,7 +249,7 @@ def run_c10(ctx):
             vlib.tlc(ctx, "BuildEnv", "MC_BuildEnv.cfg", workers=8, timeout=1500)
         # one worker: BFS order, hence the representative history of every state, is then reproducible
         r = vlib.tlc(ctx, "BuildEnv", "GEN_BuildEnv_q.cfg" if ctx.quick else "GEN_BuildEnv_t.cfg", workers=1 if ctx.quick else 6, timeout=2400)
-        behs, total = sample(r.behaviours, 110 if ctx.quick else 2000, ctx.seed, c10_nontrivial)
+        behs, total = sample(r.behaviours, 110 if ctx.quick else 1200, ctx.seed, c10_nontrivial, c10_class)
     ctx.extra["histories_enumerated_by_tlc"] = total
     drift = 0
     _det.clear()
@@ -355,8 +379,8 @@ def declared_strings(decl):
 
 # where each output file of a shape lives under plz-out/gen/p
 OUT_PATHS = {"one": {"o": "o.out"}, "two": {"a": "a.out", "b": "b.out"}, "dir": {"x": "d/a", "y": "d/s/y", "z": "d/z"},
-             "fg": {"f": "f1.txt"}, "txt": {"t": "t.txt"}}
-OUT_TOP = {"one": ["o.out"], "two": ["a.out", "b.out"], "dir": ["d"], "fg": ["f1.txt"], "txt": ["t.txt"]}
+             "od": {"o": "o.out"}, "fg": {"f": "f1.txt"}, "txt": {"t": "t.txt"}}
+OUT_TOP = {"one": ["o.out"], "two": ["a.out", "b.out"], "dir": ["d"], "od": ["o.out"], "fg": ["f1.txt"], "txt": ["t.txt"]}
 LABEL = "//%s:t" % PKG
 
 
@@ -368,6 +392,10 @@ def c35_build_file(shape, content, decl):
         return 'filegroup(\n    name = "t",\n    srcs = ["f1.txt"],\n%s)\n' % hashes
     if shape == "txt":
         return 'text_file(\n    name = "t",\n    out = "t.txt",\n    content = "T:%s",\n%s)\n' % (content, hashes)
+    if shape == "od":
+        # the output is discovered in an output directory after the build (BuildCouldModifyTarget paths)
+        return ('genrule(\n    name = "t",\n    srcs = ["f1.txt"],\n    output_dirs = ["od"],\n    cmd = %s,\n%s)\n'
+                % (json.dumps(log + 'mkdir od; printf "O:%s" "$(cat $SRCS)" > od/o.out'), hashes))
     if shape == "one":
         outs, cmd = ["o.out"], 'printf "O:%s" "$(cat $SRCS)" > o.out'
     elif shape == "two":
@@ -502,6 +530,12 @@ def c35_replay(ctx, idx, beh):
     return viols, dict(builds=builds, drift=drift, trace=trace, left=left)
 
 
+def c35_class(beh):
+    """Shape x configuration x kinds of steps x what the spec expects of the last build x the model's path to it."""
+    last = beh["steps"][-1]
+    return json.dumps([beh["init"]["shape"], beh["init"]["cf"], sorted({s["act"] for s in beh["steps"]}), last["expect"], last["how"], last["algo"]])
+
+
 def c35_nontrivial(beh):
     """Non-trivial: declared hashes meet a build after an earlier build (second build, restore, or edit in between)."""
     n = 0
@@ -515,7 +549,7 @@ def c35_nontrivial(beh):
 
 CLAIM35 = dict(
     category="model_checking", design_ref="DESIGN.md §4 C35",
-    text="DeclaredHashes.tla models one target (genrule with one file, two files or a directory output; filegroup; text_file) with a declared "
+    text="DeclaredHashes.tla models one target (genrule with one file, two files, a directory output or a file discovered in an output_dirs directory; filegroup; text_file) with a declared "
          "`hashes` list drawn from correct values under sha1/sha256/blake3/crc32, near misses, wrong lengths, prefixed values (right, wrong, "
          "naming another algorithm), values of the other content and a value split over two entries, under three [build] hashcheckers "
          "configurations; the output-hash rule (single file, combined digest of digests, directory) is transcribed from build_step.go as hash "
@@ -551,11 +585,14 @@ def run_c35(ctx):
         # the generating run checks that the model as the code is departs from the property only through the recorded flaws;
         # one worker: BFS order, hence the representative history of every state, is then reproducible
         r = vlib.tlc(ctx, "DeclaredHashes", "GEN_DeclaredHashes_q.cfg" if ctx.quick else "GEN_DeclaredHashes_t.cfg", workers=1 if ctx.quick else 6, timeout=2400)
-        behs, total = sample(r.behaviours, 120 if ctx.quick else 1500, ctx.seed, c35_nontrivial)
+        behs, total = sample(r.behaviours, 120 if ctx.quick else 1000, ctx.seed, c35_nontrivial, c35_class)
     ctx.extra["histories_enumerated_by_tlc"] = total
     drift = left = 0
+    drift_samples = []
     results = run_pool(lambda i, b: c35_replay(ctx, i, b), behs)
     for beh, (viols, st) in zip(behs, results):
+        if st["drift"] and len(drift_samples) < 5:
+            drift_samples.append(st["trace"])
         nt = c35_nontrivial(beh)
         ctx.count(json.dumps(beh, sort_keys=True), nontrivial=nt, sample=dict(trace=st["trace"]) if nt and len(st["trace"]) > 4 else None)
         ctx.traces_validated += st["builds"]
@@ -566,6 +603,7 @@ def run_c35(ctx):
     if drift:
         ctx.drift("%d build(s) ended differently from the algorithm model's prediction (allowed by the property) or did not name the failing target" % drift)
     ctx.extra["outputs_present_in_plz_out_after_failed_verification"] = left
+    ctx.extra["model_drift_samples"] = drift_samples
     ctx.exhaustive = False
     ctx.assumptions += [
         "SHA-1/SHA-256/BLAKE3/CRC collisions do not occur among the generated values (hashes abstract and injective in the spec)",
